@@ -659,6 +659,6 @@ theorem dict_accepts_iff (o : Oracle) (entries : List (String × Bool × Schema)
 
 theorem dict_accepts_leaf (o : Oracle) (entries : List (String × Bool × Schema)) (v : JVal)
     (h : v.isObj = false) : Schema.accepts o (.dict entries) v = false := by
-  cases v <;> simp [JVal.isObj] at h <;> rw [Schema.accepts]
+  cases v <;> simp [JVal.isObj] at h <;> rw [Schema.accepts] <;> intro kvs hk <;> cases hk
 
 end Pandora.Merge
